@@ -101,7 +101,7 @@ fn check_line(stats: &mut Stats, g: &G, edges: &[Edge], refs: &HashMap<GraphEdge
     let mut min_sin: f64 = 1.0;
     // the shallow classes are decided on a 200000-point evaluation of every edge (two crossings 1 unit apart on a 1500-long arc fall between
     // the points of the coarse grid), and are not subject to the coarse grid's near-tangent exclusion: their crossing angle is known to be > 0
-    let dense = lclass.starts_with("shallow_");
+    let dense = lclass.starts_with("shallow_") || lclass.starts_with("large_");
     if dense {
         const N: usize = 200000;
         for (i, e) in edges.iter().enumerate() {
@@ -241,6 +241,46 @@ pub fn search(seed: u64, n: u64) {
         stats.count(&format!("graph.{}", cls));
         let (edges, refs) = edges_of(&g);
         check_line(&mut stats, &g, &edges, &refs, line, "plain_path", cls, &detail);
+    }
+    // large shapes (edges 100s to 1000s of units long, own random stream): lines that cut across a corner or cross an edge close to its end
+    // vertex, at a distance from the vertex that is small RELATIVE to the edge (chord/5000 .. chord/1100) but still more than 0.1 units
+    let mut rng_l = Rng(seed ^ 0x1A26E14);
+    for k in 0..(6 + n / 50) {
+        let scale = [300.0, 1000.0, 3000.0][(k % 3) as usize];
+        let nv = 3 + rng_l.i(3) as usize;
+        let (cx, cy) = (50.0 * scale, 50.0 * scale);
+        let a0 = rng_l.r(0.0, TAU);
+        let pts: Vec<Coord2> = (0..nv).map(|i| { let a = a0 + TAU * (i as f64 + rng_l.r(-0.2, 0.2)) / nv as f64; let r = scale * rng_l.r(25.0, 45.0); Coord2(cx + r * a.cos(), cy + r * a.sin()) }).collect();
+        let poly = polygon(&pts);
+        let g = GraphPath::from_path(&poly, PathLabel(0));
+        let detail_owner = format!("graph=from_path({:?})", poly);
+        let detail = || detail_owner.clone();
+        let (edges, refs) = edges_of(&g);
+        for j in 0..4 {
+            let i = rng_l.i(nv as u64) as usize;
+            let (prev, v, next) = (pts[(i + nv - 1) % nv], pts[i], pts[(i + 1) % nv]);
+            let (e1, e2) = (prev - v, next - v);
+            let (l1, l2) = (len(e1), len(e2));
+            let chord = l1.min(l2);
+            let (u1, u2) = (e1 * (1.0 / l1), e2 * (1.0 / l2));
+            let r = (chord * rng_l.r(0.0002, 0.0009)).max(0.25);
+            let (line, cls) = if j % 2 == 0 {
+                // across the corner: through the two points at distance r from the vertex on its two edges
+                let (p, q) = (v + u1 * r, v + u2 * r);
+                let dir = q - p; let dl = len(dir);
+                let dir = dir * (1.0 / dl);
+                (( p - dir * (50.0 + rng_l.r(0.0, 100.0)), q + dir * (50.0 + rng_l.r(0.0, 100.0))), "large_corner_cut")
+            } else {
+                // perpendicular to one edge, at distance r from its end vertex
+                let u = if rng_l.b() { u1 } else { u2 };
+                let p = v + u * r;
+                let nrm = Coord2(-u.1, u.0);
+                ((p - nrm * (30.0 + rng_l.r(0.0, 100.0)), p + nrm * (30.0 + rng_l.r(0.0, 100.0))), "large_edge_end_crossing")
+            };
+            stats.case(&format!("{} scale={} {:?} {}", cls, scale, line, detail()), true);
+            stats.count(&format!("graph.{}", cls));
+            check_line(&mut stats, &g, &edges, &refs, line, "plain_path", cls, &detail);
+        }
     }
     for it in 0..n {
         if it % 5 == 4 {
